@@ -29,3 +29,9 @@ claim("C05",
   "Decides the wiring of the whole key hierarchy for all inputs at once: which FC, which parameters in which order with the length of the same value, which key feeds which derivation (value identity in SSA, not names), which 16 octets become K_NASenc/K_NASint and in which field they land, that OP is used exactly when OPc is absent and RES* is computed by the same Milenage instance with (mcc, mnc). A wrong constant, length suffix, slice or swapped argument - the failures the property names - is a violated obligation naming the call.",
   "Level 'other'. Trusted: HMAC-SHA-256, hex decoding and github.com/wmnsk/milenage (f2345, OPc computation, RES* incl. FC 6B). Not decided: numerical equality with a network-side derivation.",
   "DESIGN.md §5 C05")
+
+claim("C18",
+  "struct-tag / YAML-key table comparison (go/types + parsed config.yaml), argument-role table over canonical SSA access paths in main, who-may-write check on the configuration, all-paths enumeration of GetMode with feasibility over argv lengths 0..4, control-dependence (dominator) check of the procedure calls on the mode branches",
+  "Decides key by key, for all 24 documented keys, that the tag exists, is unique and sits on a settable field of the right kind, that nothing rewrites the parsed values, and that each procedure parameter and loop bound in both modes is the unconverted field of its documented key; decides GetMode for every argument-vector length 0..4 and both outcomes of the -t comparison, and that main starts procedures only under mode 1 or 2.",
+  "Level 'other'. Trusted: gopkg.in/yaml.v2 scalar decoding. Not decided: README prose; values written by yaml for malformed files.",
+  "DESIGN.md §5 C18")
